@@ -217,6 +217,15 @@ func pruneHashKeyedUpto(
 		}
 
 		if batch.Size() >= targetBatchByteSize {
+			// Every flushed batch is a complete prune up to blockNum+1: the
+			// number-keyed rows (commitments in particular, which define the
+			// oldest retained block, the resume point and the re-seeded
+			// retention floor) go in the same atomic write as the hash-keyed
+			// ones. A crash between two batches then leaves a database that
+			// is simply pruned up to a lower block.
+			if err := PruneBlockDataUpto(batch, blockNum+1); err != nil {
+				return 0, err
+			}
 			if err := batch.Write(); err != nil {
 				return 0, err
 			}
@@ -224,6 +233,9 @@ func pruneHashKeyedUpto(
 		}
 	}
 
+	if err := PruneBlockDataUpto(batch, blockNum); err != nil {
+		return 0, err
+	}
 	return blockNum, batch.Write()
 }
 
